@@ -682,7 +682,114 @@ def h_plain(sym):
 
 
 G_DELIVERY = ('delivered', 'retransmission', 'uplink-duplicate-rejected', 'downlink-retransmitted')
+# ---------------------------------------------------------------------------------------------------------------------
+# The shared dongle: several links (_SharedRadioInstance) funnel their transmissions through one _SharedRadio thread.  The
+# radio loop of C01 judges "acknowledged / lost / downlink payload" from what instance.send_packet returns, so every call must
+# be answered with the outcome of ITS OWN transmission, made with ITS OWN channel / address / data rate -- however slow the
+# dongle thread is (a timed wait anywhere on the way may run out before the answer exists).
+
+class _Expired(Exception):
+    pass
+
+
+def h_shared_radio(sym):
+    from vf.explore import Yield
+    K = sym.B['calls']
+    log = []                 # transmissions as the dongle saw them: (channel, address, rate, data)
+
+    class FakeDongle:
+        version = 0.53
+
+        def __init__(self, devid=0):
+            self.ch = self.addr = self.dr = None
+
+        def set_channel(self, c):
+            self.ch = c
+
+        def set_address(self, a):
+            self.addr = tuple(a)
+
+        def set_data_rate(self, d):
+            self.dr = d
+
+        def set_arc(self, arc):
+            pass
+
+        def send_packet(self, data):
+            log.append((self.ch, self.addr, self.dr, tuple(data)))
+            ack = _radio_ack()
+            ack.ack = True
+            ack.data = (len(log),)           # identifies the transmission this answer belongs to
+            return ack
+
+        def close(self):
+            pass
+    state = {'shared': None, 'slow': False}
+
+    class HQueue(_queue.Queue):
+        """queue.Queue whose waiting is under harness control: a consumer that would wait lets the dongle thread take steps; a
+        TIMED wait marked slow runs out first (the answer arrives afterwards, time being what it is)."""
+        def get(self, block=True, timeout=None):
+            if self.empty() and block:
+                sh = state['shared']
+                if sh is not None and self is sh._cmd_queue:
+                    raise Yield()                      # the dongle thread has nothing to do: leave its loop body
+                if timeout is not None and state['slow']:
+                    state['slow'] = False
+                    raise _queue.Empty
+                for _ in range(4):
+                    try:
+                        sh.run()
+                    except Yield:
+                        pass
+                    if not self.empty():
+                        break
+                assert not self.empty(), 'no answer from the dongle thread: the caller waits for ever'
+            return _queue.Queue.get(self, False)
+    saved = (rd.Queue, rd.Crazyradio)
+    rd.Queue, rd.Crazyradio = HQueue, FakeDongle
+    try:
+        sh = rd._SharedRadio(0)
+        state['shared'] = sh
+        inst = [sh.open_instance(), sh.open_instance()]
+        cfg = [(10, (1, 2, 3, 4, 5), 0), (90, (0xE7,) * 5, 2)]
+        for i in (0, 1):
+            inst[i].set_channel(cfg[i][0])
+            inst[i].set_address(cfg[i][1])
+            inst[i].set_data_rate(cfg[i][2])
+        for k in range(K):
+            who = sym.choice(f'who{k}', 2)
+            state['slow'] = True if sym.bool(f'slow{k}') else False
+            data = (0x3C, k, sym.int(f'b{k}', 0, 255))
+            before = len(log)
+            try:
+                ack = inst[who].send_packet(list(data))
+            except _queue.Empty:
+                ack = None
+            # a late answer exists by the time the caller comes back
+            try:
+                sh.run()
+            except Yield:
+                pass
+            mine = [n + 1 for n in range(before, len(log)) if log[n][3] == data]
+            assert len(log) == before + 1 and len(mine) == 1, 'one call of send_packet is one transmission of its data'
+            assert log[before][:3] == cfg[who], 'transmission made with the radio settings of another link'
+            if ack is not None:
+                assert tuple(ack.data) == (mine[0],), 'send_packet returned the outcome of another transmission'
+                sym.goal('answered')
+            else:
+                sym.goal('wait-ran-out')      # reported to the radio loop as "no answer": allowed, as long as later answers are not shifted
+        if K >= 2:
+            sym.goal('two-links-interleaved')
+    finally:
+        rd.Queue, rd.Crazyradio = saved
+
+
+
 HARNESSES = [
+    Harness('shared_radio', h_shared_radio, quick=dict(calls=3), thorough=dict(calls=5), timeout=(200, 900),
+            goals=('answered', 'two-links-interleaved'),
+            note='two links on one dongle; which link sends and whether a timed wait runs out are solver choices'),
     Harness('restart', h_restart, goals=('safelink-lost-on-restart', 'safelink-gained-on-restart'), symbolic=False, timeout=(120, 300)),
     # concern 1: every loss pattern, concrete packets
     Harness('loss', h_loss, quick=dict(k=6, m=2, d=2), thorough=dict(k=9, m=3, d=3), timeout=(280, 1700), goals=G_DELIVERY),
